@@ -386,6 +386,9 @@ def _amplifiers(F, e: Event, p: Path, label: str, fi, ignore, amp_seen, wh: str)
         if f[2] == 'join' and is_const(f[1]) and f[1][1] == '' and e.args:
             # ''.join(<characters of one string>) is length-preserving
             a0 = freeze(e.args[0])
+            if isinstance(a0, tuple) and a0[:1] == ('comp',) and len(a0) >= 5 and len(a0[3]) == 1 and not a0[3][0][2] \
+                    and a0[2] == ('elem', a0[3][0][1], a0[4]):
+                a0 = a0[3][0][1]            # [ch for ch in it]: the elements of `it`, one for one
             src = a0[3][0] if isinstance(a0, tuple) and a0[0] == 'call' and a0[2] in (
                 ('ref', 'builtin', 'reversed'), ('ref', 'builtin', 'iter'), ('ref', 'builtin', 'sorted'), ('ref', 'builtin', 'list')) and a0[3] else a0
             is_str = any(v and isinstance(c, tuple) and c[:2] == ('pcall', 'isinstance') and c[2][0] == src
